@@ -57,7 +57,9 @@ JudgeDir(e) ==
                [entries |-> we, fonts |-> wf], [entries |-> e.o.entries, fonts |-> e.o.fonts]),
        d.ok /\ c.ok /\ (e.a.want.entries # <<>> => e.a.want.entries = we /\ e.a.want.fonts = wf))
 
-JudgeDecode(e) == Verdict(e.o.ok, "Decode:" \o e.o.err, "ok", e.o.err)
+\* (`huge`: the font has more than 65504 glyphs and a transformed glyf table - named in the key because
+\* such a font is perfectly legal and what goes wrong with it is a matter of its size alone)
+JudgeDecode(e) == Verdict(e.o.ok, "Decode:" \o e.o.err \o (IF e.a.huge = 1 THEN ":numGlyphs>65504" ELSE ""), "ok", e.o.err)
 
 JudgeTable(e) ==
   LET ok == CASE e.a.mode = "plain"   -> e.o.present /\ e.o.same
